@@ -325,6 +325,11 @@ def pushFit (k : LoopCfg) : List Char → List Char → List Char
       pushFit k r acc
     else pushFit k r (g :: acc)
 
+/-- The buffer after the first two statements of the `EndWithLineFeed` arm (string.rs:131-134):
+`result.trim_end()` when the line is a bare line feed and `trim_end` is set, then the line. -/
+def feedAcc (k : LoopCfg) (acc line : List Char) : List Char :=
+  pushStr (if line == ['\n'] && k.trimEnd then acc.dropWhile isWs else acc) line
+
 /-- The `loop` of string.rs:95-150 over `rem = graphemes[cur_start..]`.  `none`: the fuel ran out
 (`RF.Lemmas.StringFmt.loop_fuel`: never with `fuel > rem.length`, because every `LineEnd` /
 `EndWithLineFeed` consumes at least one grapheme). -/
@@ -339,13 +344,11 @@ def loop (k : LoopCfg) : Nat → List Char → List Char → Nat → Option (Lis
         loop k fuel (rem.drop len)
           (pushStr (pushStr (pushStr (pushStr acc line) k.lineEnd) k.indentNl) k.lineStart) k.newlineMax
       | .endWithLineFeed line len =>
-        let acc := if line == ['\n'] && k.trimEnd then acc.dropWhile isWs else acc
-        let acc := pushStr acc line
         if k.bareOk then
           -- the next line can benefit from the full width
-          loop k fuel (rem.drop len) acc k.mwWithout
+          loop k fuel (rem.drop len) (feedAcc k acc line) k.mwWithout
         else
-          loop k fuel (rem.drop len) (pushStr (pushStr acc k.indentNoNl) k.lineStart) k.mwWith
+          loop k fuel (rem.drop len) (pushStr (pushStr (feedAcc k acc line) k.indentNoNl) k.lineStart) k.mwWith
       | .endOfInput line => some (pushStr acc line)
 
 /-- `rewrite_string` up to `result.push_str(fmt.closer)`, given the two indent strings. -/
